@@ -56,3 +56,8 @@ CHECKS["C18"] = ("exploration",
    "Module sources are compressed by an independent compressor (literal-only, greedy, random tokenisation with overlapping/maximal copies, raw chunks, mixtures; self-checked against its own reference decompressor), decompressed through a hook around decompress_stream, and embedded in whole projects (xlsm/xlsb part, xls storage; several code pages, offsets, reference kinds, compound-file layouts) that are read through vba_project(); names, raw bytes, decoded text and reference names are compared.",
    "trusted base: the MS-OVBA reference compressor and dir-stream writer, encoding_rs for code pages",
    "DESIGN.md §7 C18")
+CHECKS["C20"] = ("exploration",
+   "runtime monitoring: generated encrypted containers (OOXML-in-CFB, FILEPASS, ODS manifest) and unencrypted controls vs error-variant oracle",
+   "Encrypted OOXML packages (three EncryptionInfo variants, packages below/above the mini-stream cutoff, DataSpaces tree, containers without mini stream) in random compound-file layouts are opened as Xlsx and Xlsb; BIFF8 workbooks get a FILEPASS (XOR/RC4/CryptoAPI) at every globals position with ciphertext payloads, plus BIFF5-style 4-byte FILEPASS; ods manifests declare 1..4 encrypted entries. Each must fail with the reader's Password variant; the same logical workbooks unencrypted, in all four formats, must not.",
+   "trusted base: the reference encoders; ciphertext is random bytes",
+   "DESIGN.md §7 C20")
